@@ -101,7 +101,7 @@ def is_pure(fn):
         return True
     if isinstance(fn, np.ufunc):
         return True
-    if mod.split(".")[0] in ("hdf5plugin",):
+    if mod.split(".")[0] in ("hdf5plugin", "uuid", "time", "datetime"):
         return True
     if mod.startswith("numpy") or mod in ("math", "operator", "posixpath", "copy",
                                            "json", "re", "hashlib", "functools", "itertools"):
@@ -920,6 +920,11 @@ def where_idx(interp, mask):
     ctx.assume(z3.ForAll([j], z3.Implies(z3.And(j >= 0, j < m.n, m.sel(j)),
                                          z3.And(rank(j) >= 0, rank(j) < n,
                                                 idx.sel(rank(j)) == j))))
+    # N-WHERE-ALLTRUE (lemma; induction on the length): an all-True mask enumerates 0..n-1
+    kk = z3.Int("k!wa")
+    ctx.assume(z3.Implies(z3.ForAll([kk], z3.Implies(z3.And(kk >= 0, kk < m.n), m.sel(kk))),
+                          z3.And(n == z3.If(m.n >= 0, m.n, Z(0)),
+                                 z3.ForAll([kk], z3.Implies(z3.And(kk >= 0, kk < n), idx.sel(kk) == kk)))))
     idx.rank = rank
     if wkey is not None:
         wstore[wkey] = idx
@@ -1184,6 +1189,9 @@ def sym_attr(interp, obj, name):
         m = STR_METHODS.get(name)
         if m is not None:
             return eng.BoundModel(m, obj, name)
+    if isinstance(obj, Arr2D) and name in ("transpose", "T"):
+        t = Arr2D(obj.rows, not obj.transposed)
+        return eng.BoundModel(lambda interp, o: t, obj, name) if name == "transpose" else t
     if isinstance(obj, (SStr, SFmt)) and name == "encode":
         return eng.BoundModel(_anystr_encode, obj, name)
     if isinstance(obj, eng.PyRaiseValue):
@@ -2449,3 +2457,78 @@ class SIter(Sym):
         self.n = to_z3(n)
         self.getter = getter
         self.info = info or {}
+
+
+@model(_pathlib.Path.mkdir)
+def _path_mkdir(interp, path, *a, **k):
+    interp.ctx.__dict__.setdefault("fs_log", []).append(("mkdir", path))
+    return None
+
+
+@model(np.min, np.amin)
+def _np_min(interp, x, *a, **k):
+    if isinstance(x, (list, tuple)):
+        return _minmax(interp, [x], True, {})
+    raise _engine().Unsupported("np.min of " + type(x).__name__)
+
+
+@model(np.max, np.amax)
+def _np_max(interp, x, *a, **k):
+    if isinstance(x, (list, tuple)):
+        return _minmax(interp, [x], False, {})
+    raise _engine().Unsupported("np.max of " + type(x).__name__)
+
+
+@model(np.copy)
+def _np_copy(interp, x, *a, **k):
+    if isinstance(x, SArr):
+        r = SArr(x.n, x.a, x.kind, dtype=x.dtype)
+        r.item_shape = getattr(x, "item_shape", ())
+        r.birth = interp.ctx.stamp
+        return r
+    if not _engine()._has_sym(x):
+        return np.copy(x)
+    raise _engine().Unsupported("np.copy of " + type(x).__name__)
+
+
+# --------------------------------------------------------------------------
+# files opened for writing: a record of what is written (P-OPEN)
+# --------------------------------------------------------------------------
+@model(_pathlib.Path.open)
+def _path_open(interp, path, mode="r", *a, **k):
+    axiom("P-OPEN (writes to an opened file are recorded in the ghost file-system log)")
+    log = interp.ctx.__dict__.setdefault("fs_log", [])
+    log.append(("open", path, mode))
+    o = interp.ctx.obj("FileObj", {"path": path, "mode": mode, "_writes": []})
+    return o
+
+
+def _file_write(interp, fo, data):
+    interp.heap_write(fo)
+    fo.fields["_writes"].append(data)
+    interp.ctx.__dict__.setdefault("fs_log", []).append(("write", fo.fields["path"], data))
+    return None
+
+
+def _file_enter(interp, fo):
+    return fo
+
+
+def _file_exit(interp, fo, *a):
+    return None
+
+
+class Arr2D(Sym):
+    """np.array([col0, col1, ...]) of equally long 1-D arrays (rows = the given arrays)"""
+
+    def __init__(self, rows, transposed=False):
+        self.rows = rows
+        self.transposed = transposed
+
+
+@model(np.savetxt)
+def _savetxt(interp, fd, X, fmt="%.18e", delimiter=" ", **kw):
+    interp.ctx.__dict__.setdefault("fs_log", []).append(("savetxt", fd, X, fmt, delimiter))
+    if isinstance(fd, SObj):
+        fd.fields["_writes"].append(("savetxt", X, fmt, delimiter))
+    return None
